@@ -175,16 +175,21 @@ struct Plan {
     cancel: Vec<usize>,        // callers (1-based) aborted after their request was read (async / ws)
     batch: bool,
     subscribe: bool,           // ws: a notification subscriber exists
+    collide: bool,             // async: while all calls are in flight, a forward_message reuses an in-flight id (must be refused, must not disturb the call)
+    big_writer: bool,          // one more caller is stuck writing a multi-MiB request when the fault arrives; the socket stays open afterwards
 }
 
 fn run_plan(kind: Kind, plan: &Plan, rt: &tokio::runtime::Runtime, log: &Arc<Log>, rng: &mut StdRng) {
     let listener = TcpListener::bind("127.0.0.1:0").unwrap();
     let addr = listener.local_addr().unwrap();
+    let from_seq = log.seq.load(Ordering::SeqCst);
     log.push(json!({"ev": "reset", "client": kind.name(), "callers": plan.callers, "plan": format!("{plan:?}")}));
     // the server side runs in its own thread
     let plan_s = plan.clone();
     let log_s = log.clone();
     let seed: u64 = rng.r#gen();
+    let go = Arc::new(std::sync::atomic::AtomicBool::new(!(plan.collide || plan.big_writer)));
+    let go_s = go.clone();
     let srv_thread = std::thread::spawn(move || {
         let mut r = StdRng::seed_from_u64(seed);
         let mut srv = Srv::accept(&listener, kind);
@@ -202,6 +207,9 @@ fn run_plan(kind: Kind, plan: &Plan, rt: &tokio::runtime::Runtime, log: &Arc<Log
         if !plan_s.cancel.is_empty() {
             std::thread::sleep(Duration::from_millis(40));
         }
+        // collide / big_writer: the client side tells us when its extra step is in place
+        let t0 = Instant::now();
+        while !go_s.load(Ordering::SeqCst) && t0.elapsed() < Duration::from_secs(5) { std::thread::sleep(Duration::from_millis(1)); }
         let mut answered: Vec<(u64, u64)> = vec![];
         let mut n_answered = 0usize;
         let fault_now = |srv: &mut Srv, k: &str, log: &Arc<Log>, r: &mut StdRng| {
@@ -221,6 +229,18 @@ fn run_plan(kind: Kind, plan: &Plan, rt: &tokio::runtime::Runtime, log: &Arc<Log
                     f[24..32].copy_from_slice(&u64::MAX.to_le_bytes());
                     f[0..8].copy_from_slice(&47u64.to_le_bytes());
                     srv.send(&f);
+                }
+                "badlen_open" | "malformed_open" => {
+                    // a malformed frame, but the socket stays open and the peer keeps reading (without ever answering)
+                    log.push(json!({"ev": "srv", "kind": "malformed", "id": 0, "tag": 0}));
+                    if k == "malformed_open" && matches!(srv, Srv::Ws(_)) { srv.send_text(); } else { let mut f = resp_frame(1, 1); f[0] ^= 0x55; srv.send(&f); }
+                    let t0 = Instant::now();
+                    let mut buf = vec![0u8; 1 << 16];
+                    let _ = srv.stream().set_read_timeout(Some(Duration::from_millis(200)));
+                    let mut raw = srv.stream().try_clone().unwrap();
+                    while t0.elapsed() < Duration::from_secs(4) {
+                        match raw.read(&mut buf) { Ok(0) => break, Ok(_) => {}, Err(e) if e.kind() == std::io::ErrorKind::WouldBlock || e.kind() == std::io::ErrorKind::TimedOut => {}, Err(_) => break }
+                    }
                 }
                 "truncated" => {
                     // a prefix of a valid response, then the connection closes
@@ -316,6 +336,7 @@ fn run_plan(kind: Kind, plan: &Plan, rt: &tokio::runtime::Runtime, log: &Arc<Log
             _ => unreachable!(),
         }
     };
+    let mut big_done: Option<Arc<std::sync::atomic::AtomicBool>> = None;
     if plan.batch {
         // batch_json: results must be positionally aligned with the requests
         let reqs: Vec<(String, Value)> = (1..=plan.callers as u64).map(|c| (format!("/c{c}"), json!({"c": c}))).collect();
@@ -347,6 +368,7 @@ fn run_plan(kind: Kind, plan: &Plan, rt: &tokio::runtime::Runtime, log: &Arc<Log
                     })));
                     std::thread::sleep(Duration::from_micros(300));
                 }
+                big_done = extra_step(&client, plan, rt, log, &go, from_seq);
                 let t0 = Instant::now();
                 for (c, done, h) in hs {
                     while !done.load(Ordering::SeqCst) && t0.elapsed() < watchdog {
@@ -378,6 +400,7 @@ fn run_plan(kind: Kind, plan: &Plan, rt: &tokio::runtime::Runtime, log: &Arc<Log
                     hs.push((c, h));
                     std::thread::sleep(Duration::from_micros(300));
                 }
+                big_done = extra_step(&client, plan, rt, log, &go, from_seq);
                 // cancellation: abort the chosen callers once the server has read their requests
                 if !plan.cancel.is_empty() {
                     let t0 = Instant::now();
@@ -419,11 +442,59 @@ fn run_plan(kind: Kind, plan: &Plan, rt: &tokio::runtime::Runtime, log: &Arc<Log
         Ok((cls, rid, rtag, msg)) => log.push(json!({"ev": "ret", "c": later, "cls": cls, "rid": rid, "rtag": rtag, "msg": msg})),
         Err(_) => log.push(json!({"ev": "ret", "c": later, "cls": "hung", "rid": 0, "rtag": 0, "msg": "no return within 10 s"})),
     }
+    if let Some(d) = &big_done {
+        let t0 = Instant::now();
+        while !d.load(Ordering::SeqCst) && t0.elapsed() < watchdog { std::thread::sleep(Duration::from_millis(2)); }
+        if !d.load(Ordering::SeqCst) { log.push(json!({"ev": "ret", "c": plan.callers as u64 + 2, "cls": "hung", "rid": 0, "rtag": 0, "msg": "no return within 10 s"})); }
+    }
     // let a late response (after a timeout / cancel) arrive and be discarded before looking at the map
     std::thread::sleep(Duration::from_millis(if plan.timeout_ms.is_some() || !plan.cancel.is_empty() { 150 } else { 20 }));
     log.push(json!({"ev": "after", "pending": client.pending_len(), "sub_ended": sub_ended.load(Ordering::SeqCst), "ws": kind == Kind::Ws && plan.subscribe}));
     drop(client);
     let _ = srv_thread.join();
+}
+
+/// collide / big_writer: the extra client-side step performed once the server has read the plan's requests
+fn extra_step(client: &AnyClient, plan: &Plan, rt: &tokio::runtime::Runtime, log: &Arc<Log>, go: &Arc<std::sync::atomic::AtomicBool>, from_seq: u64) -> Option<Arc<std::sync::atomic::AtomicBool>> {
+    if !(plan.collide || plan.big_writer) { return None; }
+    let t0 = Instant::now();
+    let sent_ids = || -> Vec<u64> { log.ev.lock().unwrap().iter().filter(|(s, e)| *s >= from_seq && e["ev"] == "sent").map(|(_, e)| e["id"].as_u64().unwrap_or(0)).collect() };
+    while sent_ids().len() < plan.read && t0.elapsed() < Duration::from_secs(5) { std::thread::sleep(Duration::from_millis(1)); }
+    let mut done = None;
+    if plan.collide {
+        if let (AnyClient::Async(cl), Some(id)) = (client, sent_ids().first().copied()) {
+            let msg = Message::builder().id(id).query_str("/c99").body_json(&json!({"c": 99})).unwrap().build();
+            let r = rt.block_on(cl.forward_message_with_timeout(&msg, Duration::from_millis(300)));
+            let cls = match &r { Ok(_) => "ok", Err(RepeError::Io(e)) if e.kind() == std::io::ErrorKind::TimedOut => "timeout", Err(_) => "err" };
+            log.push(json!({"ev": "dupreg", "id": id, "cls": cls, "msg": r.err().map(|e| e.to_string().chars().take(60).collect::<String>()).unwrap_or_default()}));
+        }
+    }
+    if plan.big_writer {
+        let c = plan.callers as u64 + 2;
+        let body = json!({"c": c, "pad": "x".repeat(8 << 20)});
+        let path = format!("/c{c}");
+        log.push(json!({"ev": "start", "c": c}));
+        let d = Arc::new(std::sync::atomic::AtomicBool::new(false));
+        let (d2, log2) = (d.clone(), log.clone());
+        match client {
+            AnyClient::Sync(cl) => { let cl = cl.clone(); std::thread::spawn(move || {
+                let (cls, rid, rtag, msg) = classify(cl.call_json(&path, &body));
+                log2.push(json!({"ev": "ret", "c": c, "cls": cls, "rid": rid, "rtag": rtag, "msg": msg})); d2.store(true, Ordering::SeqCst);
+            }); }
+            AnyClient::Async(cl) => { let cl = cl.clone(); rt.spawn(async move {
+                let (cls, rid, rtag, msg) = classify(cl.call_json(&path, &body).await);
+                log2.push(json!({"ev": "ret", "c": c, "cls": cls, "rid": rid, "rtag": rtag, "msg": msg})); d2.store(true, Ordering::SeqCst);
+            }); }
+            AnyClient::Ws(cl) => { let cl = cl.clone(); rt.spawn(async move {
+                let (cls, rid, rtag, msg) = classify(cl.call_json(&path, &body).await);
+                log2.push(json!({"ev": "ret", "c": c, "cls": cls, "rid": rid, "rtag": rtag, "msg": msg})); d2.store(true, Ordering::SeqCst);
+            }); }
+        }
+        std::thread::sleep(Duration::from_millis(80)); // by now it is stuck mid-write: the peer reads nothing
+        done = Some(d);
+    }
+    go.store(true, Ordering::SeqCst);
+    done
 }
 
 fn permutations(n: usize) -> Vec<Vec<usize>> {
@@ -446,7 +517,7 @@ pub fn run(a: &Args) -> i32 {
     let rt = tokio::runtime::Builder::new_multi_thread().worker_threads(4).enable_all().build().unwrap();
     let log = Arc::new(Log { seq: AtomicU64::new(0), ev: Mutex::new(vec![]) });
     let mut plans: Vec<Plan> = vec![];
-    let base = |callers: usize| Plan { callers, read: callers, order: (0..callers).collect(), junk: vec![], fault: None, timeout_ms: None, late: vec![], cancel: vec![], batch: false, subscribe: true };
+    let base = |callers: usize| Plan { callers, read: callers, order: (0..callers).collect(), junk: vec![], fault: None, timeout_ms: None, late: vec![], cancel: vec![], batch: false, subscribe: true, collide: false, big_writer: false };
     if mode == "c04" {
         // every reply order for n callers, with one junk frame rotating through kinds and positions
         let junk_kinds: Vec<&'static str> = if kind == Kind::Ws { vec!["none", "unknown", "dup", "notify"] } else { vec!["none", "unknown", "dup"] };
@@ -466,6 +537,15 @@ pub fn run(a: &Args) -> i32 {
             pl.order.shuffle(&mut rng);
             pl.junk = (0..6).map(|_| (rng.gen_range(0..m), junk_kinds[rng.gen_range(1..junk_kinds.len())])).collect();
             plans.push(pl);
+        }
+        // a forward_message that reuses the id of a call in flight: refused, and the call still gets its own response
+        if kind == Kind::Async {
+            for m in [1usize, 3, 6] {
+                let mut pl = base(m);
+                pl.order.shuffle(&mut rng);
+                pl.collide = true;
+                plans.push(pl);
+            }
         }
         // batches
         for _ in 0..a.usize("batches", 6) {
@@ -489,6 +569,17 @@ pub fn run(a: &Args) -> i32 {
                         plans.push(pl);
                     }
                 }
+            }
+        }
+        // the connection turns bad while another caller is stuck writing a large request, and the socket stays open:
+        // in-flight calls, the stuck writer and every later call must still fail
+        for &inflight in &[0usize, 2] {
+            for fk in ["badlen_open", "malformed_open"] {
+                let mut pl = base(inflight);
+                pl.order = vec![];
+                pl.fault = Some((fk, 0));
+                pl.big_writer = true;
+                plans.push(pl);
             }
         }
         // timeouts racing the response (both orders): late answers for some callers
